@@ -622,9 +622,17 @@ def native_iter(it, v, node=None):
             return h(it, node)
         raise OutOfSubset(f"iteration over {type(v).__name__}", node)
     try:
-        return list(v)
+        import itertools
+        out = list(itertools.islice(iter(v), NATIVE_ITER_LIMIT + 1))
     except TypeError as e:
         raise SymRaise(ExcValue(TypeError, e.args), node)
+    if len(out) > NATIVE_ITER_LIMIT:
+        # e.g. itertools.count(): iterables are consumed eagerly by the interpreter, an unbounded one cannot be
+        raise OutOfSubset(f"iteration over more than {NATIVE_ITER_LIMIT} native elements (an unbounded or lazy iterator?)", node)
+    return out
+
+
+NATIVE_ITER_LIMIT = 200000
 
 
 # ---------------------------------------------------------------------------------------------
